@@ -2043,3 +2043,17 @@ VM('C15', 'f15-reverted', [(BLK, "        key = (type(const), const)\n", "      
 V('C15', 'const-key-hash', BLK, "        key = (type(const), const)\n", "        key = (type(const), hash(const))\n", 'R15.8',
   note="seed C15-10: equal hashes (-1, -2) share one Const")
 E('C15', 'const-key-class', BLK, "        key = (type(const), const)\n", "        key = (const.__class__, const)\n")
+
+# ----------------------------------------------------------------------------- R13.6 (defects F16, F17)
+V('C13', 'f16-reverted', TI, "_RE_YEAR = re.compile(r'(?<!\\d)(\\d{4})(?!\\d)', flags=re.ASCII)",
+  "_RE_YEAR = re.compile(r'(\\d{4})', flags=re.ASCII)", 'R13.6', note="pre-fix tree: 'July 20281 8:00' read as July 1")
+V('C13', 'f17-reverted', TI, "    r'(?<!\\d)(\\d{1,2}:\\d{1,2}(:\\d{1,2})?([.,]\\d+)?)(?!\\d)', flags=re.ASCII)",
+  "    r'(\\d{1,2}:\\d{1,2}(:\\d{1,2})?([.,]\\d+)?)', flags=re.ASCII)", 'R13.6',
+  note="pre-fix tree: 'July 2028 108:00' read as July 1 08:00")
+V('C13', 'join-without-blank', TI, "        string = ' '.join((string[:start], string[end:]))\n",
+  "        string = string[:start] + string[end:]\n", 'R13.6', note="seed C13-8: '1jun5' becomes the 15th")
+V('C13', 'month-two-letters', TI, "_RE_MONTH = re.compile(r'([^\\W\\d_]{3,})\\.?')", "_RE_MONTH = re.compile(r'([^\\W\\d_]{2,})\\.?')", 'R13.6')
+V('C13', 'leftover-not-stripped', TI, "    string = string.strip()\n    if string:\n        raise ValueError(\n            f\"Could not convert",
+  "    if string.isalpha():\n        raise ValueError(\n            f\"Could not convert", 'R13.6')
+E('C13', 'join-format', TI, "        string = ' '.join((string[:start], string[end:]))\n",
+  "        string = string[:start] + ' ' + string[end:]\n")
